@@ -456,6 +456,9 @@ func runCheck(id, tier string, seed int, propose, verbose bool) int {
 		for _, o := range all {
 			if o.Status != "discharged" || verbose {
 				fmt.Printf("  %-10s %s [%s %dms] %s\n", o.Status, o.Name, o.Backend, o.Millis, o.Pos)
+				if o.Backend == "ssa-scan" && o.Status != "discharged" {
+					fmt.Printf("             %s\n", o.Output)
+				}
 			}
 		}
 		for _, u := range unsupported {
